@@ -271,7 +271,7 @@ def _world():
     global _WORLD
     if _WORLD is None:
         from vp.pysym import loader
-        _WORLD = loader.load('sym', modules=('misc', 'coneprog'))
+        _WORLD = loader.load('sym', modules=('misc', 'coneprog', 'cvxprog'))
     return _WORLD
 
 class ConelpSpec(object):
@@ -326,6 +326,9 @@ def get_spec(name):
     if name == 'coneqp':
         from vp.checks import c03
         return c03.ConeqpSpec
+    if name == 'cpl':
+        from vp.checks import c04
+        return c04.CplSpec
     raise KeyError(name)
 
 def _links(status, cap, res, sol):
@@ -441,6 +444,8 @@ def job(cfg):
             for name in spec.abs_fields:
                 if sol.get(name) is not None and sym.is_sym(sol[name]) and pairs:
                     sol_abs[name] = sym.SymReal(z3.substitute(sym.T(sol[name]), *pairs))
+                if sol_abs.get(name) is not None and sym.is_sym(sol_abs[name]):
+                    allowed |= set(n_ for n_ in sym.consts_of(sym.T(sol_abs[name])) if not (n_.startswith('sq!') or n_.startswith('osq!')))
             # ---- stage 3: radicands.  Unscaled oracle sums of squares U (over the a! variables)
             # and the data norms are matched against the radicands of the square roots the code
             # took (solver-checked identity U == radicand); a matched radicand becomes one fresh
@@ -452,18 +457,21 @@ def job(cfg):
                 if z3.is_eq(f) and f.arg(0).decl().kind() == z3.Z3_OP_MUL and f.arg(0).num_args() == 2 \
                         and f.arg(0).arg(0).eq(f.arg(0).arg(1)) and str(f.arg(0).arg(0)).startswith('sq!'):
                     defs.append((i_, f.arg(0).arg(0), f.arg(1)))
-            nm_abs = {}
+            nm_abs = {}; raw_abs = {}
             for key, u in U.items():
                 vvar = None
+                if callable(u): u = u(raw_abs)           # radicand composed of already abstracted ones
                 if not z3.is_rational_value(z3.simplify(u)):
+                    hyp = [pc_abs[i2] for (i2, _, _) in defs]
                     for (i_, sq_, rad) in defs:
-                        if z3.is_true(z3.simplify(u == rad)) or sym.check([u != rad], 2000)[0] == 'unsat':
+                        if z3.is_true(z3.simplify(u == rad)) or sym.check(hyp + [u != rad], 2000)[0] == 'unsat':
                             vvar = z3.Real('V!%s' % key); allowed.add('V!%s' % key)
                             pc_abs[i_] = (sq_*sq_ == vvar)
                             pc_abs.append(vvar >= 0)
                             count(spec.prop_of(st), 'unsat', 0.0)   # matching identity discharged by the simplifier
                             break
                 val = vvar if vvar is not None else u
+                raw_abs[key] = val
                 nm_abs[key] = val/(fv*fv) if key in scaled else val
             abs_all = spec.claims(A2, cfg, dn, sol_abs, nm_abs, cap['opts'], k, maxit)
             abs_claims = {lab: g for (_, lab, g, grp) in abs_all if grp == 'abstract'}
@@ -577,7 +585,7 @@ def replay(cfg, model, use_c=True):
     import fractions
     from vp.pysym import loader, alg
     from vp.checks import conelp_h as H
-    Wd = loader.load('conc', use_c=use_c, modules=('misc', 'coneprog'))
+    Wd = loader.load('conc', use_c=use_c, modules=('misc', 'coneprog', 'cvxprog'))
     spec = get_spec(cfg['solver'])
     A = alg.ConcAlg()
     def val(name):
@@ -625,6 +633,9 @@ def main(tier, pid='C01'):
     if pid == 'C03':
         from vp.checks import c03
         cfgs = c03.configs(tier)
+    elif pid == 'C04':
+        from vp.checks import c04
+        cfgs = c04.configs(tier)
     else:
         cfgs = configs(tier)
     for c in cfgs:
@@ -633,7 +644,7 @@ def main(tier, pid='C01'):
     known = common.known_findings(pid)
     violations, known_hits, herr, inconc = [], [], [], []
     paths = 0; statuses = {}; reach = {}; seen = {}; job_walls = []
-    mine = {'C01': ('C01', 'C10'), 'C02': ('C02',), 'C03': ('C03', 'C10')}[pid]
+    mine = {'C01': ('C01', 'C10'), 'C02': ('C02',), 'C03': ('C03', 'C10'), 'C04': ('C04', 'C10')}[pid]
     for r in results:
         cfg = {k: v for k, v in r['cfg'].items() if not k.startswith('_')}
         if not r['ok']:
@@ -663,15 +674,16 @@ def main(tier, pid='C01'):
                 herr.append('%s: counterexample for "%s" %s (%s)' % (json.dumps(cfg), s['label'], why, rp))
             elif key in known: known_hits.append((key, known[key]['what']))
             else: violations.append((key, rp, '%s -> %s' % (json.dumps(cfg), rep)))
-    need = ('optimal',) if pid in ('C01', 'C03') else ('primal infeasible', 'dual infeasible')
+    need = ('optimal',) if pid in ('C01', 'C03', 'C04') else ('primal infeasible', 'dual infeasible')
     for s_ in need:
         if not reach.get(s_): herr.append("reachability twin: no exactly-satisfiable path returning '%s'" % s_)
     ev.extra['sat_by_key'] = seen
     ev.extra['slowest_jobs'] = sorted(job_walls, reverse=True)[:5]
+    src_mods = ['coneprog', 'misc'] + (['cvxprog'] if pid == 'C04' else [])
     ev.cov.update({'states': paths, 'transitions': max(1, ev.obl['total']), 'traces_validated_against_impl': 0,
                    'paths_by_status': statuses, 'configurations': len(cfgs), 'reachability_twins_sat': sorted(reach),
-                   'functions_encoded': ['coneprog.%s (exit block at an arbitrary iteration%s)' % ('coneqp' if pid == 'C03' else 'conelp', '; no-inequality shortcut with exact KKT contract stub' if pid == 'C03' else ''), 'misc.sgemv/sdot/snrm2/symm/max_step/trisc/triusc (Python fallbacks)'],
-                   'source_hash': loader.src_hash(['coneprog', 'misc']),
+                   'functions_encoded': ['%s (exit block at an arbitrary iteration%s)' % ({'C03': 'coneprog.coneqp', 'C04': 'cvxprog.cpl (user F a memoised symbolic stub)'}.get(pid, 'coneprog.conelp'), '; no-inequality shortcut with exact KKT contract stub' if pid == 'C03' else ''), 'misc.sgemv/sdot/snrm2/symm/max_step/trisc/triusc (Python fallbacks)'],
+                   'source_hash': loader.src_hash(src_mods),
                    'bounds': 'cone structures %s; n<=%d variables, p<=1 equalities; dense and sparse G/A; iteration index k symbolic in [0,maxiters]; all data, tolerances and the iterate symbolic reals'
                              % (json.dumps(sorted(set(json.dumps(c['dims']) for c in cfgs))), 2 if tier == 'quick' else 3)})
     ev.assumptions += ['loop invariant at the head of an arbitrary iteration: tau>0, kappa>0 (I1); gap = <s,z>/tau^2 (I2); s,z strictly inside the cone (I3)',
